@@ -126,6 +126,16 @@ def build_traces(path, tier, seed):
             else:
                 add({"kind": "rel", "law": "same", "clause": "EntryPointsAgree", "tol": enc(1e-12), "scale": enc(scale), "x": enc_seq(flat[0]), "y": enc_seq(flat[e])},
                     {"kind": "rel", "law": "EntryPointsAgree", "n": n, "entry": e, "shape_mismatch": True})
+    # the absolute time scale: the same T/dt and xi on records timed in very different units (xi * w from 1e-3 to 1e7 per unit
+    # of time; an implementation may not depend on the unit)
+    for j, (dt_, ratio_, xi_) in enumerate([(1.0e-4, 10.0, 0.3), (0.01, 0.2, 0.5), (1.0e-5, 40.0, 0.05), (1.0e-7, 8.0, 0.7), (50.0, 12.0, 0.3), (1.0e-4, 5.0, 0.999)]):
+        n = int(rng.integers(20, 80))
+        a, shape = gen.record(rng, n, shape=["noise", "step", "sine"][j % 3], amp=1.0)
+        res = three(a, dt_, [ratio_ * dt_], xi_, container=j)
+        u, v, acc = res[j % 3]
+        add({"kind": "series", "T": enc(ratio_ * dt_), "xi": enc(xi_), "dt": enc(dt_), "a": enc_seq(a), "u": enc_seq(u[0]), "v": enc_seq(v[0]), "acc": enc_seq(acc[0])},
+            {"kind": "series", "n": n, "T_over_dt": ratio_, "xi": xi_, "dt": dt_, "entry": ["response_series", "nigam_and_jennings_response", "AccSignal.response_series"][j % 3],
+             "shape": shape, "time_unit_regime": True})
     # call history: consecutive calls in one process that share dt, xi, the number of periods and the two end periods
     # but differ in the interior periods / in their order (each period's series must depend on that period only)
     from eqsig import sdof
